@@ -16,6 +16,8 @@ Invariants over the recorded history:
 
 from __future__ import annotations
 
+import os
+
 from hypothesis import strategies as st
 
 from vf import hsmsrig
@@ -27,7 +29,7 @@ LEVEL = "exploration"
 TECHNIQUE = "property-based testing of concurrent requesters under a deterministic scheduler (PRNG schedules + parked line-level preemptions), history invariants checked on the wire"
 RULE = (
     "Case = 1..5 requester threads x 1..3 calls with start offsets, per-request peer action (reply after d < T3 | reply "
-    "after T3 | never | drop the link on reading the request), unsolicited primaries at generated times, 0..2 link drops with reconnect, initial system counter "
+    "after T3 | never | drop the link on reading the request), unsolicited primaries at generated times (optionally carrying the system bytes of a request that is outstanding at that moment), 0..2 link drops with reconnect, initial system counter "
     "(incl. 2^32-3..2^32-1 wrap), schedule seed, switch probability and preemption probability in {get_next_system_counter, "
     "_get_queue_for_system, _remove_queue, send_and_waitfor_response, _dispatcher_thread_function}; frames due at the same instant "
     "arrive one by one, back-to-back or in one segment; a quarter of the cases is a focused burst family (immediate replies and "
@@ -73,6 +75,19 @@ def case_strategy(draw):
     )
     sched["syscnt"] = syscnt
     burst = draw(st.sampled_from(["settled", "separate", "joined"]))
+    if draw(st.integers(0, 7)) == 0:
+        # focused family: an application handler that is still busy while the link drops and comes back; the messages of the new
+        # link must wait for it (one at a time, in order). No requesters: their replies would queue behind the slow handler.
+        return {
+            "reqs": [],
+            "unsol": sorted(draw(st.lists(st.sampled_from([0.0, 0.05, 1.1, 1.2, 1.2, 1.3, 2.0, 2.5]), min_size=2, max_size=6))),
+            "drops": draw(st.sampled_from([[0.05], [0.2], [0.05, 1.4], [1.0]])),
+            "stay_down": False,
+            "sched": draw(st.one_of(st.just({"seed": 0, "syscnt": syscnt}), st.builds(lambda sd, p: {"seed": sd, "switch": p, "syscnt": syscnt}, st.integers(1, 2**31), st.sampled_from([0.1, 0.5])))),
+            "burst": draw(st.sampled_from(["settled", "separate", "joined"])),
+            "handler_sleep": draw(st.sampled_from([1.2, 1.5, 3.0])),
+            "family": "slow-handler",
+        }
     if draw(st.integers(0, 3)) == 0:
         # focused family: bursts of inbound messages (replies at once, unsolicited primaries at the same instants), no rescuing
         # traffic afterwards, a handler that returns at once, preemptions only in the dispatcher / receive hand-over
@@ -92,15 +107,17 @@ def case_strategy(draw):
             "handler_sleep": draw(st.sampled_from([0.0, 0.0, 0.001])),
             "family": "burst",
         }
-    return {"reqs": reqs, "unsol": sorted(unsol), "drops": sorted(drops), "stay_down": stay_down, "sched": sched, "burst": burst, "handler_sleep": draw(st.sampled_from([0.001, 0.001, 0.0]))}
+    return {"reqs": reqs, "unsol": sorted(unsol), "drops": sorted(drops), "stay_down": stay_down, "sched": sched, "burst": burst, "handler_sleep": draw(st.sampled_from([0.001, 0.001, 0.0])),
+            "collide": draw(st.sampled_from([False, False, True]))}
 
 
-def _reconnect(rig, sim, system, inbox):
+def _reconnect(rig, sim, system, inbox, patience=1.0):
     """Peer reconnects and selects; the Select.rsp is read by the peer actor (it owns the socket's receive side)."""
     if not rig.connect_peer():
         return False
     rig.peer.send(e37.control_frame(e37.SELECT_REQ, system))
-    for _ in range(20):
+    # control messages share the dispatcher with the application's handlers: a slow handler delays the Select.rsp
+    for _ in range(int(patience / 0.05) + 1):
         sim.advance(0.05)
         if any(f["stype"] == e37.SELECT_RSP and f["system"] == system for f in inbox):
             break
@@ -129,6 +146,9 @@ def run_case(case, observe=None):
 
         def on_msg(rec):
             log.append(("enter", rec["system"], sim.now))
+            if os.environ.get("VF_DEBUG"):
+                import threading as _t
+                print("   handler enter", hex(rec["system"]), round(sim.now - t0, 2), _t.current_thread().name, flush=True)
             if case.get("handler_sleep", 0.001):
                 tshim.sleep(case.get("handler_sleep", 0.001))
             log.append(("exit", rec["system"], sim.now))
@@ -160,6 +180,7 @@ def run_case(case, observe=None):
         unsol = [t0 + t for t in case["unsol"]]
         drops = [t0 + t for t in case["drops"]]
         sent_unsol = []  # system bytes in send order
+        sent_epoch = {}  # system bytes -> number of link drops before it was sent
         replies_sent = {}  # (j,k) -> t
         # A peer actor INSIDE the simulation reads the endpoint's frames and answers zero-delay replies at once, so that a
         # reply can overtake a requester that is preempted between sending and waiting; everything else (delays, late
@@ -227,6 +248,7 @@ def run_case(case, observe=None):
         garbled = []
 
         actor_drops = [0]
+        collided = set()
 
         def process_inbox():
             new_frames, inbox[:] = list(inbox), []
@@ -260,8 +282,19 @@ def run_case(case, observe=None):
                 return garbled[0]
             while unsol and unsol[0] <= sim.now:
                 unsol.pop(0)
-                usys[0] += 1
-                pending.append((sim.now, e37.data_frame(0, 1, 1, 1, usys[0]), ("unsol", usys[0])))
+                sysb = None
+                if case.get("collide"):
+                    # the peer's own primary happens to carry the system bytes of a request the endpoint has outstanding
+                    # (both sides number their transactions independently): it is still a primary, not that request's reply
+                    for (cj, ck), wv in sorted(wire.items()):
+                        if (cj, ck) not in results and (cj, ck) not in replies_sent and (cj, ck) not in collided and case["reqs"][cj]["calls"][ck]["act"] == "reply" and link_up:
+                            collided.add((cj, ck))
+                            sysb = wv["sys"]
+                            break
+                if sysb is None:
+                    usys[0] += 1
+                    sysb = usys[0]
+                pending.append((sim.now, e37.data_frame(0, 1, 1, 1, sysb), ("unsol", sysb)))
             if actor_drops[0] and link_up:
                 actor_drops[0] = 0
                 link_up = False
@@ -279,7 +312,7 @@ def run_case(case, observe=None):
             if not link_up and not drops and case.get("stay_down"):
                 t_reconnect = float("inf")  # the link stays down after the last drop: every call must still return
             if not link_up and sim.now >= t_reconnect:
-                if not _reconnect(rig, sim, 0x7700 + n_drops, inbox):
+                if not _reconnect(rig, sim, 0x7700 + n_drops, inbox, patience=1.0 + 2 * case.get("handler_sleep", 0.001)):
                     return Failure("reconnect-failed", case, f"{rig.state()} {sim.blocked_report()}", "SELECTED again")
                 link_up = True
             if link_up and not rig.peer.closed:
@@ -297,6 +330,7 @@ def run_case(case, observe=None):
                         rig.peer.send(data)
                     if kind[0] == "unsol":
                         sent_unsol.append(kind[1])
+                        sent_epoch[kind[1]] = n_drops
                     elif kind[0] == "reply":
                         replies_sent[kind[1]] = sim.now
                     if burst == "settled":
@@ -305,8 +339,9 @@ def run_case(case, observe=None):
                     rig.peer.send(b"".join(d[1] for d in due))
                 if due and burst != "settled":
                     sim.settle()
-            if len(results) == total_calls and not drops and (not link_up or (not pending and not unsol)):
-                sim.advance(0.2)
+            if len(results) == total_calls and not drops and ((not link_up and case.get("stay_down")) or (link_up and not pending and not unsol)):
+                # let the application handlers finish what is queued (a slow handler takes its time per message)
+                sim.advance(0.2 + (case.get("handler_sleep", 0.001) + 0.01) * (len(sent_unsol) + 1))
                 break
         actor_stop[0] = True
         sim.advance(0.1)
@@ -369,6 +404,11 @@ def run_case(case, observe=None):
             order = [x for x in sent_unsol if x in got]
             if got != order:
                 return Failure("unsolicited-reordered", case, [hex(x) for x in got], [hex(x) for x in order])
+            if link_up:
+                # what the peer sent on the link that is still up (after the last drop, session selected) must all be there
+                final = [x for x in sent_unsol if sent_epoch.get(x) == n_drops]
+                if [x for x in got if x in set(final)] != final:
+                    return Failure("unsolicited-lost:after-reconnect", case, [hex(x) for x in got], [hex(x) for x in final])
         if other:
             late_replies = [m for m in other if (m["stream"], m["function"]) == (10, 4)]
             if len(late_replies) != len(other):
@@ -383,6 +423,7 @@ def run_case(case, observe=None):
             observe.update(stats)
             observe["preempt_hits"] = len(sim.preempt_hits)
             observe["dispatchers_alive"] = len(sim.alive("protocol_dispatcher"))
+            observe["collisions"] = len(collided)
     return None
 
 
@@ -398,6 +439,9 @@ def run_task(name, kw, ctx):
         ncalls = sum(len(r["calls"]) for r in case["reqs"])
         nt = (obs.get("max_outstanding", 0) >= 2) or obs.get("late_or_never", 0) > 0 or (obs.get("drops", 0) > 0 and ncalls >= 2)
         cls = [f"requesters:{len(case['reqs'])}", f"burst:{case.get('burst', 'settled')}"]
+        if case.get("family") == "slow-handler":
+            cls.append("family:slow-handler-across-reconnect")
+            nt = True
         if case.get("family") == "burst":
             cls.append("family:burst")
             nt = nt or (len(case["unsol"]) - len(set(case["unsol"])) >= 1) or ncalls >= 2
@@ -409,6 +453,8 @@ def run_task(name, kw, ctx):
             cls.append("link-drop")
         if obs.get("stay_down"):
             cls.append("link-stays-down")
+        if obs.get("collisions"):
+            cls.append("peer-primary-with-system-bytes-of-an-open-request")
         if any(c["act"] == "drop" for r in case["reqs"] for c in r["calls"]):
             cls.append("peer-drops-link-on-a-request")
         if obs.get("preempt_hits"):
